@@ -19,7 +19,7 @@ theorem write_mono (p : Bytes) (s : St) : CMono s.c (s.write p).st.c := by
 
 theorem sepWrite_mono (n : Nat) (sep : Bytes) (s : St) : CMono s.c (sepWrite n sep s).st.c := by
   unfold sepWrite; split
-  · exact write_mono sep s
+  · exact write_mono _ s
   · exact CMono.refl _
 
 theorem tplWrites_mono (pre t suf : Bytes) (noesc : Bool) (s : St) : CMono s.c (tplWrites s pre t suf noesc).st.c := by
